@@ -245,6 +245,12 @@ func codecStep(dir string, f []string) (res string) {
 		// migrate mv iv t k base loghex idxhex: Segment.Migrate with the FS tap; the files afterwards and the steps
 		p := index.Params{Times: f[3] == "1", Keys: f[4] == "1"}
 		s := putFiles(dir, atoi(f[5]), f[6], f[7])
+		if len(f) > 8 && strings.HasPrefix(f[8], "stale:") {
+			// what a migration that died half-way left behind
+			if err := os.WriteFile(s.Log+".migrate", unhx(f[8][6:]), 0o600); err != nil {
+				panic(err)
+			}
+		}
 		var steps []string
 		nm := func(x string) string {
 			switch x {
